@@ -13,7 +13,7 @@ use std::time::{Duration, Instant};
 pub const VERIF_ROOT: &str = "/verif";
 pub const CASE_STACK: usize = 2 << 20; // tokio blocking-thread default: what the shipped server runs analyses on
 const CUR_SLOT: usize = 1 << 20;
-const DIGEST_CAP: usize = 3_000_000;
+const DIGEST_CAP: usize = 1_000_000;
 const SAMPLE_CAP: usize = 4;
 
 // ------------------------------------------------------------------------------------------------
